@@ -70,6 +70,13 @@ fn main() {
 		props::c15::child(args[2].parse().unwrap_or(0), &args[3]);
 		return;
 	}
+	#[cfg(not(feature = "nocrypto"))]
+	if args.len() >= 3 && args[1] == "C19-child" {
+		// (the default hook again: what a panic prints is part of what the parent searches)
+		let _ = std::panic::take_hook();
+		props::c19::child(&args[2]);
+		return;
+	}
 	if args.len() >= 3 && args[1] == "gen-fixtures" {
 		let dir = &args[2];
 		let g256 = openssl::ec::EcGroup::from_curve_name(openssl::nid::Nid::X9_62_PRIME256V1).unwrap();
